@@ -327,6 +327,7 @@ class FunctionVC(Executor):
         s.heap = post.heap
         s.pc = post.pc
         s.fresh = post.fresh
+        s.env["_ret_" + name.split(".")[-1]] = result  # ghost: result of the most recent call of this callee
         yield s, result
 
     def fresh_typed(self, ty, s):
